@@ -223,11 +223,14 @@ class MainJsonStdout(Harness):
         from props.c09 import BANNER, kexinit_pkt
         lists = {'weak': (['diffie-hellman-group1-sha1', 'curve25519-sha256'], ['ssh-dss', 'ssh-ed25519']), 'clean': (['curve25519-sha256'], ['ssh-ed25519']),
                  'unknown': (['curve25519-sha256', 'zz-unknown-kex'], ['ssh-ed25519']),
+                 'proto-1.99': (['curve25519-sha256'], ['ssh-ed25519']),     # a finding of the general section only (SSH-1 enabled)
                  # the probe phases run into errors (connections refused / no banner / reset after the first one): their messages are status lines, too
                  'probes-refused': (['curve25519-sha256', 'diffie-hellman-group-exchange-sha256'], ['ssh-ed25519', 'ssh-rsa']),
                  'probes-no-banner': (['curve25519-sha256', 'diffie-hellman-group-exchange-sha256'], ['ssh-ed25519', 'ssh-rsa']),
                  'probes-reset': (['curve25519-sha256', 'diffie-hellman-group-exchange-sha256'], ['ssh-ed25519', 'ssh-rsa'])}[self.arch]
         pk = kexinit_pkt(*lists)
+        if self.arch == 'proto-1.99':
+            BANNER = b'SSH-1.99-OpenSSH_8.0\r\n'
         if self.arch == 'probes-refused':
             net = AE.FakeNet([AE.Conn([BANNER, pk])] + [AE.Conn([], refuse=True) for _ in range(20)])
         elif self.arch == 'probes-no-banner':
@@ -262,9 +265,10 @@ class MainJsonStdout(Harness):
     def run(self, M, inp):
         r1, ok1, d1, t1 = self.one(M, inp, 1)
         r2, ok2, d2, t2 = self.one(M, inp, 2)
-        if isinstance(r1, Exc) or isinstance(r2, Exc):
-            return {'exc': r1 if isinstance(r1, Exc) else r2}
-        return {'r1': r1, 'r2': r2, 'ok1': ok1, 'ok2': ok2, 'same': ok1 and ok2 and d1 == d2, 'head1': t1[:40], 'indented': '\n' in t2.strip(), 'compact': '\n' not in t1.strip()}
+        r0, _, _, _ = self.one(M, inp, 0)        # the text report of the same peer under the same presentation flags
+        if isinstance(r1, Exc) or isinstance(r2, Exc) or isinstance(r0, Exc):
+            return {'exc': r1 if isinstance(r1, Exc) else (r2 if isinstance(r2, Exc) else r0)}
+        return {'r0': r0, 'r1': r1, 'r2': r2, 'ok1': ok1, 'ok2': ok2, 'same': ok1 and ok2 and d1 == d2, 'head1': t1[:40], 'indented': '\n' in t2.strip(), 'compact': '\n' not in t1.strip()}
 
     def check(self, inp, obs):
         if 'exc' in obs:
@@ -275,6 +279,7 @@ class MainJsonStdout(Harness):
         if obs['ok1'] and obs['ok2']:
             yield 'compact-and-indented-parse-to-the-same-value', obs['same']
         yield 'same-status', obs['r1'] == obs['r2']
+        yield 'same-status-as-the-text-report', obs['r0'] == obs['r1']
 
     def classify(self, inp, obs, label):
         if label.startswith('stdout-is-one-json-document') and isinstance(obs.get('head1'), str) and obs['head1'].startswith('Starting audit of'):
@@ -449,7 +454,7 @@ def tasks(tier):
     T.append(JsonVsText('enc', 1, 1, 1, True))
     for c1, c2 in ([('enc', 'mac'), ('kex', 'key')] if q else [('enc', 'mac'), ('mac', 'enc'), ('kex', 'key'), ('key', 'enc'), ('kex', 'mac')]):
         T.append(JsonVsTextTwoCats(c1, c2))
-    for arch in ('weak', 'clean', 'unknown', 'probes-refused', 'probes-no-banner', 'probes-reset'):
+    for arch in ('weak', 'clean', 'unknown', 'proto-1.99', 'probes-refused', 'probes-no-banner', 'probes-reset'):
         T.append(MainJsonStdout(arch))
     for peer in SEED_PEERS:
         for js in (False, True):
